@@ -26,6 +26,7 @@ class FakeSock:
         self.log = []            # ('send', n_offered, n_accepted) / ('recv', n) / ('close',) ...
         self.blocking = True
         self.close_count = 0
+        self.peer_reset = False  # set once a scripted reset / broken pipe was raised: shutdown() then fails like a real socket
 
     # -- scripting
     def feed(self, *items):
@@ -63,6 +64,8 @@ class FakeSock:
         x = self.inq.pop(0)
         if isinstance(x, BaseException):
             self.log.append(('recv_err', type(x).__name__))
+            if isinstance(x, (ConnectionResetError, BrokenPipeError)):
+                self.peer_reset = True
             raise x
         if x is EOF:
             self.log.append(('recv', 0))
@@ -81,6 +84,8 @@ class FakeSock:
             k = self.send_script.pop(0)
             if isinstance(k, BaseException):
                 self.log.append(('send_err', type(k).__name__, len(data)))
+                if isinstance(k, (ConnectionResetError, BrokenPipeError)):
+                    self.peer_reset = True
                 raise k
         else:
             k = len(data)
@@ -92,6 +97,10 @@ class FakeSock:
     def shutdown(self, how):
         if self.closed:
             raise OSError(errno.EBADF, 'Bad file descriptor')
+        if self.peer_reset:
+            # observed on a real loopback socket: after the peer reset the connection, shutdown(SHUT_WR) raises ENOTCONN
+            self.log.append(('shutdown_err', 'ENOTCONN'))
+            raise OSError(errno.ENOTCONN, 'Transport endpoint is not connected')
         self.shut.append(how)
 
     def close(self):
